@@ -50,8 +50,8 @@ func (f *flConn) Write(p []byte) (int, error) {
 	return len(p), nil
 }
 func (f *flConn) Close() error                       { f.closed.Store(true); return nil }
-func (f *flConn) LocalAddr() net.Addr                { return memAddr{-1} }
-func (f *flConn) RemoteAddr() net.Addr               { return memAddr{0} }
+func (f *flConn) LocalAddr() net.Addr                { return lcMemAddr{-1} }
+func (f *flConn) RemoteAddr() net.Addr               { return lcMemAddr{0} }
 func (f *flConn) SetDeadline(t time.Time) error      { return nil }
 func (f *flConn) SetReadDeadline(t time.Time) error  { return nil }
 func (f *flConn) SetWriteDeadline(t time.Time) error { return nil }
@@ -71,7 +71,7 @@ func (l *flListener) Accept() (net.Conn, error) {
 	}
 }
 func (l *flListener) Close() error   { l.once.Do(func() { close(l.done) }); return nil }
-func (l *flListener) Addr() net.Addr { return memAddr{-1} }
+func (l *flListener) Addr() net.Addr { return lcMemAddr{-1} }
 
 type flHandler struct{ f *flConn }
 
